@@ -12,8 +12,17 @@ structure M2 (s : App) (c : CSet) : Prop where
 
 structure G2 (s : App) (c : CSet) : Prop extends M2 s c where
   allCur : ∀ v ∈ s.vals, Active v → alookup v.key c = some (cur v)
-  noGone : ∀ v ∈ s.vals, ¬ Gone v
+  noLeaving : ∀ v ∈ s.vals, ¬ Leaving v
   totalOk : 0 ≤ s.lastTotal ∧ s.lastTotal ≤ maxTotalPower
+
+/-- the state between the BeginBlockers: like `G2`, but validators jailed by x/slashing or x/evidence a moment ago are
+    still bonded (they leave at this block's EndBlocker) -/
+structure B2 (s : App) (c : CSet) : Prop extends M2 s c where
+  allCur : ∀ v ∈ s.vals, Active v → alookup v.key c = some (cur v)
+  totalOk : 0 ≤ s.lastTotal ∧ s.lastTotal ≤ maxTotalPower
+
+theorem B2_of_G2 (s : App) (c : CSet) (g : G2 s c) : B2 s c :=
+  { st := g.st, cm := g.cm, allCur := g.allCur, totalOk := g.totalOk }
 
 /-- `Cm` when one record is written and CometBFT's set stays -/
 theorem Cm_put (s s' : App) (c : CSet) (op : Nat) (w : Val) (m : St s) (k : Cm s c)
@@ -21,6 +30,7 @@ theorem Cm_put (s s' : App) (c : CSet) (op : Nat) (w : Val) (m : St s) (k : Cm s
     (hupdNe : ∀ o, o ≠ op → (o ∈ s'.updated ↔ o ∈ s.updated))
     (hcurW : Active w → op ∉ s'.updated → alookup w.key c = some (cur w))
     (hgoneW : Gone w → alookup w.key c ≠ none)
+    (hjbW : w.jailed = true → w.status = .bonded → alookup w.key c ≠ none)
     (hknownW : ∀ v, s.getVal op = some v → v.status = .bonded → w.key = v.key ∧ w.status = .bonded) : Cm s' c := by
   have hmemNew : ∀ x, x ∈ s'.vals → x = w ∨ (x ∈ s.vals ∧ x.op ≠ op) := by
     intro x hx; rw [hvals] at hx
@@ -40,6 +50,11 @@ theorem Cm_put (s s' : App) (c : CSet) (op : Nat) (w : Val) (m : St s) (k : Cm s
       rcases hmemNew x hx with e | ⟨o, _⟩
       · rw [e] at hg ⊢; exact hgoneW hg
       · exact k.gone x o hg)
+    jb := (by
+      intro x hx hj hb
+      rcases hmemNew x hx with e | ⟨o, _⟩
+      · rw [e] at hj hb ⊢; exact hjbW hj hb
+      · exact k.jb x o hj hb)
     known := (by
       intro key p hkp
       obtain ⟨x, hx, hxk, hxb⟩ := k.known key p hkp
@@ -56,6 +71,7 @@ theorem Cm_put (s s' : App) (c : CSet) (op : Nat) (w : Val) (m : St s) (k : Cm s
 theorem Cm_congr (s s' : App) (c : CSet) (k : Cm s c) (hv : s'.vals = s.vals) (hu : s'.updated = s.updated) : Cm s' c :=
   { cur := by rw [hv, hu]; exact k.cur
     gone := by rw [hv]; exact k.gone
+    jb := by rw [hv]; exact k.jb
     known := by rw [hv]; exact k.known
     cSorted := k.cSorted, cNonneg := k.cNonneg }
 
@@ -63,7 +79,7 @@ theorem Cm_congr (s s' : App) (c : CSet) (k : Cm s c) (hv : s'.vals = s.vals) (h
 theorem endBlock_G2 (s : App) (c : CSet) (m : M2 s c) (f : Fits2 s c) :
     ∃ ups s' c', s.stakingEndBlock = .ok (ups, s') ∧ Comet.applyChangeSet c ups = .ok c' ∧ Agree c' s' ∧ G2 s' c' ∧
       s'.updated = s.updated ∧ s'.params = s.params ∧ s'.height = s.height ∧ s'.time = s.time ∧
-      (∀ o w, s'.getVal o = some w → ∃ v0, s.getVal o = some v0 ∧ (w = v0 ∨ (Gone v0 ∧ Unb w ∧ w.key = v0.key))) ∧
+      (∀ o w, s'.getVal o = some w → ∃ v0, s.getVal o = some v0 ∧ RecRel v0 w) ∧
       (∀ o v0, s.getVal o = some v0 → Active v0 → s'.getVal o = some v0) := by
   obtain ⟨ups, s', c', he, hc, hag, m', hng, _, r2, r3, r4, r5, _, hT0, hT1, hrec, hkeep⟩ := stakingEndBlock_St s c m.st m.cm f
   refine ⟨ups, s', c', he, hc, hag, ?_, r2, r3, r4, r5, hrec, hkeep⟩
@@ -73,12 +89,18 @@ theorem endBlock_G2 (s : App) (c : CSet) (m : M2 s c) (f : Fits2 s c) :
     intro v hv ha
     have hg := mem_vals_getVal s' m'.sorted v hv
     apply (hag v.key (cur v)).mpr
-    exact ⟨v, hg, ha.1, ha.2.1, rfl, by simp [lastPower, m'.last v hv, lastOf_active v ha]⟩
+    exact ⟨v, hg, ha.1, ha.2.1, rfl, by simp [lastPower, m'.lastA v hv ha]⟩
   exact {
     st := m'
     cm := {
       cur := (fun v hv ha _ => hallCur v hv ha)
-      gone := (fun v hv hg => absurd hg (hng v hv))
+      gone := (fun v hv hg => absurd (Or.inl hg) (hng v hv))
+      jb := (fun v hv hj hb => by
+        rcases m'.cls v hv with h | h | h | h
+        · rw [h.2.1] at hj; cases hj
+        · rw [h.2.1] at hj; cases hj
+        · rw [h.2.1] at hj; cases hj
+        · exact absurd (Or.inr ⟨h, hb⟩) (hng v hv))
       known := (by
         intro key p hkp
         obtain ⟨v, hv, hb, _, hk, _⟩ := (hag key p).mp hkp
@@ -87,14 +109,14 @@ theorem endBlock_G2 (s : App) (c : CSet) (m : M2 s c) (f : Fits2 s c) :
       cNonneg := (by
         intro e he1
         have hl := alookup_of_mem_nodup e.1 e.2 c' (ksorted_nodup _ hcs) he1
-        obtain ⟨v, hv, hb, _, _, hp2⟩ := (hag e.1 e.2).mp hl
+        obtain ⟨v, hv, hb, hj, _, hp2⟩ := (hag e.1 e.2).mp hl
         have hvm := mem_of_getVal s' v.op v hv
-        have := m'.last v hvm
+        have := m'.last v hvm hj
         simp only [lastOf, hb, ↓reduceIte] at this
         simp only [lastPower, this, Option.getD_some] at hp2
         rw [← hp2]; unfold cur; omega) }
     allCur := hallCur
-    noGone := hng
+    noLeaving := hng
     totalOk := ⟨hT0, hT1⟩ }
 
 /-! ### x/slashing's BeginBlocker when it punishes nobody -/
@@ -104,8 +126,8 @@ theorem St_frame (s : App) (m : St s) (I : List (Nat × SignInfo)) (B : List (Na
     St { s with infos := I, bitmap := B, height := h, time := t } :=
   { sorted := m.sorted, keys := m.keys, cls := m.cls, hasActive := m.hasActive
     pend := ⟨m.pend.ops, m.pend.keys, m.pend.fresh⟩
-    last := m.last, lastOnly := m.lastOnly, lastSorted := m.lastSorted, idxEx := m.idxEx, idxNodup := m.idxNodup
-    idx := fun v hv => { a1 := (m.idx v hv).a1, a2 := (m.idx v hv).a2, g := (m.idx v hv).g, u := (m.idx v hv).u }
+    last := m.last, lastJ := m.lastJ, lastOnly := m.lastOnly, lastSorted := m.lastSorted, idxEx := m.idxEx, idxNodup := m.idxNodup
+    idx := fun v hv => { a1 := (m.idx v hv).a1, a2 := (m.idx v hv).a2, g := (m.idx v hv).g, u := (m.idx v hv).u, j := (m.idx v hv).j }
     unbond := m.unbond, infos := hI, cons := m.cons, updSorted := m.updSorted, updEx := m.updEx
     qSorted := m.qSorted, qNodup := m.qNodup, qRecs := m.qRecs }
 
@@ -113,14 +135,21 @@ theorem G2_frame (s : App) (c : CSet) (g : G2 s c) (I : List (Nat × SignInfo)) 
     (hI : ∀ v ∈ s.vals, (alookup v.key I).isSome = true) :
     G2 { s with infos := I, bitmap := B, height := h, time := t } c :=
   { st := St_frame s g.st I B h t hI
-    cm := { cur := g.cm.cur, gone := g.cm.gone, known := g.cm.known, cSorted := g.cm.cSorted, cNonneg := g.cm.cNonneg }
-    allCur := g.allCur, noGone := g.noGone, totalOk := g.totalOk }
+    cm := { cur := g.cm.cur, gone := g.cm.gone, jb := g.cm.jb, known := g.cm.known, cSorted := g.cm.cSorted, cNonneg := g.cm.cNonneg }
+    allCur := g.allCur, noLeaving := g.noLeaving, totalOk := g.totalOk }
+
+theorem B2_frame (s : App) (c : CSet) (g : B2 s c) (I : List (Nat × SignInfo)) (B : List (Nat × List Nat)) (h t : Int)
+    (hI : ∀ v ∈ s.vals, (alookup v.key I).isSome = true) :
+    B2 { s with infos := I, bitmap := B, height := h, time := t } c :=
+  { st := St_frame s g.st I B h t hI
+    cm := { cur := g.cm.cur, gone := g.cm.gone, jb := g.cm.jb, known := g.cm.known, cSorted := g.cm.cSorted, cNonneg := g.cm.cNonneg }
+    allCur := g.allCur, totalOk := g.totalOk }
 
 /-! ### PoA's BeginBlocker -/
 
-/-- **PoA's BeginBlocker takes `G2` to `G2` with an empty cache** -/
-theorem poaBegin_G2 (lf : LimitFacts) (s : App) (c : CSet) (g : G2 s c) :
-    ∃ s2, poaBegin lf s = .ok s2 ∧ G2 s2 c ∧ s2.updated = [] ∧ s2.vals = s.vals ∧ s2.height = s.height ∧ s2.params = s.params := by
+/-- **PoA's BeginBlocker takes `B2` to `B2` with an empty cache** -/
+theorem poaBegin_G2 (lf : LimitFacts) (s : App) (c : CSet) (g : B2 s c) :
+    ∃ s2, poaBegin lf s = .ok s2 ∧ B2 s2 c ∧ s2.updated = [] ∧ s2.vals = s.vals ∧ s2.height = s.height ∧ s2.params = s.params := by
   have m := g.st
   have hcur : ∀ op ∈ s.updated, ∃ v, s.getVal op = some v ∧ (powerOf v.tokens, op) ∈ s.index := by
     intro op hop
@@ -133,7 +162,7 @@ theorem poaBegin_G2 (lf : LimitFacts) (s : App) (c : CSet) (g : G2 s c) :
       rw [hvop] at this
       exact ⟨v, rfl, this⟩
   obtain ⟨idx', h1, h2, h3, h4⟩ := pruneUpdated_spec s s.updated s.index (sorted_nat_nodup _ m.updSorted) m.idxNodup hcur
-  have mk : ∀ (cch : Nat) (ab : Nat), G2 { s with index := idx', updated := [], cached := cch, absCh := ab } c := by
+  have mk : ∀ (cch : Nat) (ab : Nat), B2 { s with index := idx', updated := [], cached := cch, absCh := ab } c := by
     intro cch ab
     have hget : ∀ o, ({ s with index := idx', updated := [], cached := cch, absCh := ab } : App).getVal o = s.getVal o :=
       fun o => getVal_congr _ _ rfl o
@@ -141,7 +170,7 @@ theorem poaBegin_G2 (lf : LimitFacts) (s : App) (c : CSet) (g : G2 s c) :
       st := {
         sorted := m.sorted, keys := m.keys, cls := m.cls, hasActive := m.hasActive
         pend := ⟨m.pend.ops, m.pend.keys, m.pend.fresh⟩
-        last := m.last, lastOnly := m.lastOnly, lastSorted := m.lastSorted
+        last := m.last, lastJ := m.lastJ, lastOnly := m.lastOnly, lastSorted := m.lastSorted
         idxEx := (fun e he => m.idxEx e (h3 e he)), idxNodup := h2
         idx := (by
           intro v hv
@@ -173,13 +202,16 @@ theorem poaBegin_G2 (lf : LimitFacts) (s : App) (c : CSet) (g : G2 s c) :
                   omega
               obtain ⟨e, he, heo⟩ := hex
               have := occ_one_unique v.op s.index b1 e (h3 e he) (0, v.op) b2 heo rfl
-              rw [← this]; exact he) })
+              rw [← this]; exact he)
+            j := (fun hj => by
+              show occ v.op idx' = 0
+              rw [hocc, io.j hj]; omega) })
         unbond := m.unbond, infos := m.infos, cons := m.cons
         updSorted := List.Pairwise.nil, updEx := (fun op hop => by cases hop)
         qSorted := m.qSorted, qNodup := m.qNodup, qRecs := m.qRecs }
-      cm := { cur := (fun v hv ha _ => g.allCur v hv ha), gone := g.cm.gone, known := g.cm.known
+      cm := { cur := (fun v hv ha _ => g.allCur v hv ha), gone := g.cm.gone, jb := g.cm.jb, known := g.cm.known
               cSorted := g.cm.cSorted, cNonneg := g.cm.cNonneg }
-      allCur := g.allCur, noGone := g.noGone, totalOk := g.totalOk }
+      allCur := g.allCur, totalOk := g.totalOk }
   have hprune : pruneUpdated s.updated s = .ok { s with index := idx' } := h1
   unfold poaBegin
   rw [hprune]
@@ -194,6 +226,233 @@ theorem poaBegin_G2 (lf : LimitFacts) (s : App) (c : CSet) (g : G2 s c) :
     rw [if_neg hU]
     exact ⟨_, rfl, mk _ _, rfl, rfl, rfl, rfl⟩
   · exact ⟨_, rfl, mk _ _, rfl, rfl, rfl, rfl⟩
+
+theorem cons_lookup_raw (s : App) (m : St s) (v : Val) (hv : v ∈ s.vals) : alookup v.key s.cons = some v.op := by
+  have hc := m.cons v hv
+  unfold valByKey at hc
+  cases hk : alookup v.key s.cons with
+  | none => rw [hk] at hc; cases hc
+  | some o1 =>
+    rw [hk] at hc
+    simp only at hc
+    rw [← getVal_op _ _ _ hc]
+
+/-! ### x/slashing's and x/evidence's BeginBlockers when they punish: the shape of their result -/
+
+/-- what the two punishing BeginBlockers may have done to a `G2` state (with the new height and time) — a decidable
+    relation between the state before and after them, evaluated by the driver: every record is unchanged or was an
+    `Active` validator, not re-weighted in the last block, and is now jailed (still bonded, possibly with fewer tokens,
+    same shares, same key); the power index lost exactly the entries of the jailed validators; signing infos exist;
+    everything else `St` reads is unchanged -/
+structure PunShape (s0 s1 : App) : Prop where
+  ops : s1.vals.map (·.op) = s0.vals.map (·.op)
+  recs : ∀ v ∈ s0.vals, ∃ w, s1.getVal v.op = some w ∧ w.key = v.key ∧
+    (w = v ∨ (Active v ∧ v.op ∉ s0.updated ∧ w.jailed = true ∧ w.shares ≠ 0 ∧ w.status = .bonded))
+  stays : ∃ v ∈ s0.vals, Active v ∧ s1.getVal v.op = some v
+  last : s1.last = s0.last
+  ubq : s1.ubq = s0.ubq
+  cons : s1.cons = s0.cons
+  pending : s1.pending = s0.pending
+  updated : s1.updated = s0.updated
+  unbond : s1.params.unbond = s0.params.unbond
+  lastTotal : s1.lastTotal = s0.lastTotal
+  idxSub : ∀ e ∈ s1.index, e ∈ s0.index
+  idxNodup : s1.index.Nodup
+  idxOcc : ∀ v ∈ s0.vals, s1.getVal v.op = some v → occ v.op s1.index = occ v.op s0.index
+  idxKeep : ∀ e ∈ s0.index, s1.getVal e.2 = s0.getVal e.2 → e ∈ s1.index
+  idxJ : ∀ w ∈ s1.vals, w.jailed = true → occ w.op s1.index = 0
+  infos : ∀ w ∈ s1.vals, (s1.getInfo w.key).isSome = true
+
+theorem sortedOps_of_ops (l l' : List Val) (h : l'.map (·.op) = l.map (·.op)) (hs : SortedOps l) : SortedOps l' := by
+  unfold SortedOps at hs ⊢
+  have h1 : (l.map (·.op)).Pairwise (· < ·) := List.pairwise_map.mpr hs
+  rw [← h] at h1
+  exact List.pairwise_map.mp h1
+
+/-- **the punishing BeginBlockers keep `B2`** -/
+theorem punish_B2 (s0 s1 : App) (c : CSet) (g : B2 s0 c) (hno : ∀ v ∈ s0.vals, ¬ Leaving v) (p : PunShape s0 s1) : B2 s1 c := by
+  have m := g.st
+  have hsorted1 : SortedOps s1.vals := sortedOps_of_ops s0.vals s1.vals p.ops m.sorted
+  -- every record of `s1` comes from the record of `s0` with the same operator
+  have hfrom : ∀ w ∈ s1.vals, ∃ v ∈ s0.vals, v.op = w.op ∧ w.key = v.key ∧
+      (w = v ∨ (Active v ∧ v.op ∉ s0.updated ∧ w.jailed = true ∧ w.shares ≠ 0 ∧ w.status = .bonded)) := by
+    intro w hw
+    have hop : w.op ∈ s0.vals.map (·.op) := by rw [← p.ops]; exact List.mem_map.mpr ⟨w, hw, rfl⟩
+    obtain ⟨v, hv, hvo⟩ := List.mem_map.mp hop
+    obtain ⟨w', hw', hk, hcase⟩ := p.recs v hv
+    have hgw := mem_vals_getVal s1 hsorted1 w hw
+    rw [← hvo, hw'] at hgw
+    injection hgw with hgw
+    rw [← hgw]
+    exact ⟨v, hv, by rw [hgw]; exact hvo, hk, hcase⟩
+  have hjl : ∀ w ∈ s1.vals, ∀ v ∈ s0.vals, v.op = w.op → w ≠ v → Jl w ∧ w.status = .bonded ∧ Active v ∧ v.op ∉ s0.updated := by
+    intro w hw v hv hvo hne
+    obtain ⟨v', hv', hvo', _, hcase⟩ := hfrom w hw
+    have : v' = v := sorted_op_inj _ m.sorted v' hv' v hv (by rw [hvo', hvo])
+    rw [this] at hcase
+    rcases hcase with e | ⟨ha, hu, h1, h2, h3⟩
+    · exact absurd e hne
+    · exact ⟨⟨h1, h2⟩, h3, ha, hu⟩
+  have hget0 : ∀ v ∈ s0.vals, s0.getVal v.op = some v := fun v hv => mem_vals_getVal s0 m.sorted v hv
+  -- classes
+  have hcls1 : ∀ w ∈ s1.vals, Active w ∨ Gone w ∨ Unb w ∨ Jl w := by
+    intro w hw
+    obtain ⟨v, hv, _, _, hcase⟩ := hfrom w hw
+    rcases hcase with e | ⟨_, _, h1, h2, _⟩
+    · rw [e]; exact m.cls v hv
+    · exact Or.inr (Or.inr (Or.inr ⟨h1, h2⟩))
+  have hsame_or : ∀ w ∈ s1.vals, w ∈ s0.vals ∨ (Jl w ∧ w.status = .bonded ∧ ∃ v ∈ s0.vals, v.op = w.op ∧ w.key = v.key ∧ Active v ∧ v.op ∉ s0.updated) := by
+    intro w hw
+    obtain ⟨v, hv, hvo, hk, hcase⟩ := hfrom w hw
+    rcases hcase with e | ⟨ha, hu, h1, h2, h3⟩
+    · left; rw [e]; exact hv
+    · right; exact ⟨⟨h1, h2⟩, h3, v, hv, hvo, hk, ha, hu⟩
+  have hget1_of_same : ∀ w ∈ s1.vals, w ∈ s0.vals → s1.getVal w.op = some w := fun w hw _ => mem_vals_getVal s1 hsorted1 w hw
+  have hgetEq : ∀ o, (s0.getVal o).isSome = true → (s1.getVal o).isSome = true := by
+    intro o ho
+    cases hv : s0.getVal o with
+    | none => rw [hv] at ho; cases ho
+    | some v =>
+      have hvm := mem_of_getVal s0 o v hv
+      obtain ⟨w, hw, _⟩ := p.recs v hvm
+      rw [getVal_op _ _ _ hv] at hw
+      rw [hw]; rfl
+  have hnone : ∀ o, s0.getVal o = none → s1.getVal o = none := by
+    intro o ho
+    cases hv : s1.getVal o with
+    | none => rfl
+    | some w =>
+      exfalso
+      have hwm := mem_of_getVal s1 o w hv
+      obtain ⟨v, hvm, hvo, _⟩ := hfrom w hwm
+      have := hget0 v hvm
+      rw [hvo, getVal_op _ _ _ hv, ho] at this; cases this
+  refine {
+    st := {
+      sorted := hsorted1
+      keys := (by
+        intro w1 h1 w2 h2 hk
+        obtain ⟨v1, hv1, ho1, k1, _⟩ := hfrom w1 h1
+        obtain ⟨v2, hv2, ho2, k2, _⟩ := hfrom w2 h2
+        have : v1 = v2 := m.keys v1 hv1 v2 hv2 (by rw [← k1, ← k2, hk])
+        exact sorted_op_inj _ hsorted1 w1 h1 w2 h2 (by rw [← ho1, ← ho2, this]))
+      cls := hcls1
+      hasActive := (by
+        obtain ⟨v, hv, ha, hs⟩ := p.stays
+        exact ⟨v, mem_of_getVal s1 v.op v hs, ha⟩)
+      pend := (by
+        refine ⟨by rw [p.pending]; exact m.pend.ops, by rw [p.pending]; exact m.pend.keys, ?_⟩
+        intro q hq
+        rw [p.pending] at hq
+        obtain ⟨f1, f2, f3⟩ := m.pend.fresh q hq
+        refine ⟨hnone q.op f1, ?_, f3⟩
+        intro w hw
+        obtain ⟨v, hv, _, hk, _⟩ := hfrom w hw
+        rw [hk]; exact f2 v hv)
+      last := (by
+        intro w hw hj
+        rw [p.last]
+        rcases hsame_or w hw with h | ⟨hjl, _⟩
+        · exact m.last w h hj
+        · rw [hjl.1] at hj; cases hj)
+      lastJ := (by
+        intro w hw hj
+        rw [p.last]
+        rcases hsame_or w hw with h | ⟨_, hb, v, hv, hvo, _, ha, _⟩
+        · exact m.lastJ w h hj
+        · rw [← hvo, m.lastA v hv ha]
+          constructor
+          · intro _; exact hb
+          · intro _; simp)
+      lastOnly := (by
+        intro o q hq
+        rw [p.last] at hq
+        exact hgetEq o (m.lastOnly o q hq))
+      lastSorted := (by rw [p.last]; exact m.lastSorted)
+      idxEx := (fun e he => hgetEq e.2 (m.idxEx e (p.idxSub e he)))
+      idxNodup := p.idxNodup
+      idx := (by
+        intro w hw
+        rcases hsame_or w hw with h | ⟨hjl, _, v, hv, hvo, _, ha, hu⟩
+        · have io := m.idx w h
+          have hs := hget1_of_same w hw h
+          have hocc := p.idxOcc w h hs
+          exact {
+            a1 := (fun ha hnu => by rw [hocc]; exact io.a1 ha (by rw [← p.updated]; exact hnu))
+            a2 := (fun hin => by
+              obtain ⟨b1, b2, b3⟩ := io.a2 (by rw [← p.updated]; exact hin)
+              exact ⟨b1, by rw [hocc]; exact b2, p.idxKeep _ b3 (by rw [hs, hget0 w h])⟩)
+            g := (fun hg => by rw [hocc]; exact io.g hg)
+            u := (fun hu' => by
+              obtain ⟨b1, b2⟩ := io.u hu'
+              exact ⟨by rw [hocc]; exact b1, p.idxKeep _ b2 (by rw [hs, hget0 w h])⟩)
+            j := (fun hj => p.idxJ w hw hj) }
+        · exact {
+            a1 := (fun ha' => absurd hjl (active_not_jl _ ha'))
+            a2 := (fun hin => by exfalso; rw [p.updated, ← hvo] at hin; exact hu hin)
+            g := (fun hg' => absurd hjl (gone_not_jl _ hg'))
+            u := (fun hu' => absurd hjl (unb_not_jl _ hu'))
+            j := (fun hj => p.idxJ w hw hj) })
+      unbond := (by rw [p.unbond]; exact m.unbond)
+      infos := p.infos
+      cons := (by
+        intro w hw
+        obtain ⟨v, hv, hvo, hk, _⟩ := hfrom w hw
+        unfold valByKey
+        rw [p.cons, hk, cons_lookup_raw s0 m v hv, hvo]
+        exact mem_vals_getVal s1 hsorted1 w hw)
+      updSorted := (by rw [p.updated]; exact m.updSorted)
+      updEx := (by intro o ho; rw [p.updated] at ho; exact hgetEq o (m.updEx o ho))
+      qSorted := (by rw [p.ubq]; exact m.qSorted)
+      qNodup := (by rw [p.ubq]; exact m.qNodup)
+      qRecs := (by
+        intro e he
+        rw [p.ubq] at he
+        obtain ⟨v, hv, hst, t1, t2⟩ := m.qRecs e he
+        have hvm := mem_of_getVal s0 e.2 v hv
+        obtain ⟨w, hw, _, hcase⟩ := p.recs v hvm
+        rw [getVal_op _ _ _ hv] at hw
+        rcases hcase with e1 | ⟨ha, _⟩
+        · exact ⟨w, hw, by rw [e1]; exact hst, by rw [e1]; exact t1, by rw [e1]; exact t2⟩
+        · rw [ha.1] at hst; cases hst) }
+    cm := {
+      cur := (by
+        intro w hw ha _
+        rcases hsame_or w hw with h | ⟨hjl, _⟩
+        · exact g.allCur w h ha
+        · exact absurd hjl (active_not_jl w ha))
+      gone := (by
+        intro w hw hg
+        rcases hsame_or w hw with h | ⟨hjl, _⟩
+        · exact absurd (Or.inl hg) (hno w h)
+        · exact absurd hjl (gone_not_jl w hg))
+      jb := (by
+        intro w hw hj hb
+        rcases hsame_or w hw with h | ⟨_, _, v, hv, _, hk, ha, _⟩
+        · exfalso
+          have hjl : Jl w := by
+            rcases m.cls w h with a | a | a | a
+            · rw [a.2.1] at hj; cases hj
+            · rw [a.2.1] at hj; cases hj
+            · rw [a.2.1] at hj; cases hj
+            · exact a
+          exact hno w h (Or.inr ⟨hjl, hb⟩)
+        · rw [hk, g.allCur v hv ha]; simp)
+      known := (by
+        intro key q hkq
+        obtain ⟨v, hv, hk, hb⟩ := g.cm.known key q hkq
+        obtain ⟨w, hw, hwk, hcase⟩ := p.recs v hv
+        refine ⟨w, mem_of_getVal s1 v.op w hw, by rw [hwk]; exact hk, ?_⟩
+        rcases hcase with e | ⟨_, _, _, _, h3⟩
+        · rw [e]; exact hb
+        · exact h3)
+      cSorted := g.cm.cSorted, cNonneg := g.cm.cNonneg }
+    allCur := (by
+      intro w hw ha
+      rcases hsame_or w hw with h | ⟨hjl, _⟩
+      · exact g.allCur w h ha
+      · exact absurd hjl (active_not_jl w ha))
+    totalOk := (by rw [p.lastTotal]; exact g.totalOk) }
 
 end App
 end PoaVerif
